@@ -62,6 +62,17 @@ CLAIMED.update({
     ),
 })
 
+CLAIMED.update({
+    "C05": (
+        "source inventory (who-may-call) + enumeration of map ranges + interprocedural bag/order taint analysis on FoIR with a commutative-action table",
+        "Source-to-sink argument for all programs and all map orders at once: no nondeterminism source (goroutines, time, randomness, environment, addresses, reflect map iteration) is referenced in fc or the pkg/* it imports; "
+        "the only map ranges are dict.Keys/Values/KVs; their results (bags) reach only order-insensitive consumers (sort, size, effect-free predicates/maps, Iter with a commutative action whose closed form is pinned); "
+        "a value that observes a bag's order may flow only into a diagnostic message.",
+        "Trusts the allow-listed Go standard library functions to be deterministic; wording of diagnostics is not fixed by the statement.",
+        "DESIGN.md §3 C05",
+    ),
+})
+
 NOT_APPLICABLE = {
 }
 
